@@ -21,7 +21,7 @@ Qed.
 (* {"codec":"struct","type":"object","properties":
      {"z":{"type":"array","items":{"type":"null"},"noLengthEncodingExhaustBuffer":true}}} *)
 Definition zw_schema : schema :=
-  SObj None [([122], {| p_index := 0; p_default := None |}, SArr AExhaust (SLeaf TNull None false))].
+  SObj None [([122], {| p_index := 0; p_default := None |}, SArr AExhaust (SLeaf TNull None 0%nat))].
 Definition zw_top : top := modify_top {| t_nullable := false; t_schema := zw_schema |}.
 
 (* Historical record (finding F9a, fixed by fd16390).  For the constructor of the pinned commit
@@ -41,7 +41,7 @@ Proof.
   change (modify_top {| t_nullable := false; t_schema := zw_schema |}) with zw_top.
   intros fuel buf. unfold decode_top, zw_top, modify_top. cbn [t_nullable t_schema].
   change (modify zw_schema) with
-    (SObj (Some [[122]]) [([122], {| p_index := 0; p_default := None |}, SArr AExhaust (SLeaf TNull None false))]).
+    (SObj (Some [[122]]) [([122], {| p_index := 0; p_default := None |}, SArr AExhaust (SLeaf TNull None 0%nat))]).
   rewrite decode_obj_eq. cbn [decode_fields]. rewrite decode_arr_eq.
   rewrite decode_exhaust_never_stops; [reflexivity|].
   intros b. exists VNull, b. reflexivity.
@@ -75,8 +75,8 @@ Proof. rewrite decode_arr_eq. apply decode_exhaust_not_short. Qed.
 
 (* {"a": exhaust array of "B", "z": "i"} with {"a":[1,2],"z":7}: the array swallows z's bytes *)
 Definition nontail_schema : schema :=
-  SObj None [([97], {| p_index := 0; p_default := None |}, SArr AExhaust (SLeaf TInteger (Some (BInt IB)) false));
-             ([122], {| p_index := 0; p_default := None |}, SLeaf TInteger (Some (BInt Ii)) false)].
+  SObj None [([97], {| p_index := 0; p_default := None |}, SArr AExhaust (SLeaf TInteger (Some (BInt IB)) 0%nat));
+             ([122], {| p_index := 0; p_default := None |}, SLeaf TInteger (Some (BInt Ii)) 0%nat)].
 Definition nontail_top : top := modify_top {| t_nullable := false; t_schema := nontail_schema |}.
 Definition nontail_value : value := VObj [([97], VArr [VInt 1; VInt 2]); ([122], VInt 7)].
 
@@ -338,6 +338,8 @@ Theorem accepted_decode_terminates t :
 Proof.
   unfold construct. intros Hc fuel buf Hl.
   destruct (t_schema t) as [| |req ps] eqn:Es; try discriminate.
+  destruct (has_prop_named k_properties (SObj req ps)); [discriminate|].
+  destruct (key_in k_type (map pkey ps) && negb (key_in k_binaryFormat (map pkey ps))); [discriminate|].
   destruct (negb c12_pascal_zero_allowed && has_pas0 (SObj req ps)); [discriminate|].
   destruct (top_rules req ps); [discriminate|].
   apply cthen_accept in Hc as [_ Hd]. apply accepted_zw_free in Hd.
@@ -349,8 +351,8 @@ End Term.
 
 (* non-vacuity: a tail exhaust array of 1-byte items satisfies zw_free and decodes *)
 Example decode_terminates_ex :
-  let s := SObj None [([97], {| p_index := 0; p_default := None |}, SLeaf TInteger (Some (BInt Ih)) false);
-                      ([122], {| p_index := 0; p_default := None |}, SArr AExhaust (SLeaf TInteger (Some (BInt IB)) false))] in
+  let s := SObj None [([97], {| p_index := 0; p_default := None |}, SLeaf TInteger (Some (BInt Ih)) 0%nat);
+                      ([122], {| p_index := 0; p_default := None |}, SArr AExhaust (SLeaf TInteger (Some (BInt IB)) 0%nat))] in
   zw_free s = true /\
   decode widen32_impl 6 s [255; 255; 1; 2; 3] =
     DOk (VObj [([97], VInt (-1)); ([122], VArr [VInt 1; VInt 2; VInt 3])]) [] /\
@@ -562,8 +564,8 @@ Qed.
 End Tail.
 
 Example exhaust_tail_roundtrip_ex :
-  let s := SObj None [([97], {| p_index := 0; p_default := None |}, SLeaf TInteger (Some (BInt Ih)) false);
-                      ([122], {| p_index := 0; p_default := None |}, SArr AExhaust (SLeaf TInteger (Some (BInt IB)) false))] in
+  let s := SObj None [([97], {| p_index := 0; p_default := None |}, SLeaf TInteger (Some (BInt Ih)) 0%nat);
+                      ([122], {| p_index := 0; p_default := None |}, SArr AExhaust (SLeaf TInteger (Some (BInt IB)) 0%nat))] in
   let v := VObj [([122], VArr [VInt 1; VInt 2; VInt 3]); ([97], VInt (-1))] in
   encode round32_impl s v = EOk [255; 255; 1; 2; 3] /\
   decode widen32_impl 6 s [255; 255; 1; 2; 3] = DOk (norm round32_impl widen32_impl s v) [].
